@@ -180,7 +180,7 @@ def make_jobs(Job, procs, tier, seed, canary_proc, quick_n3=5, thorough_n3_1=12,
         for i, f in enumerate(fams3_2):
             jobs.append(Job('n3-2sym-%d-%s' % (i, proc), mod, 'sem_job', dict({'n': 3, 'fam': f, 'proc': proc}, **pp), stop_after_violations=SAV))
         for i, f in enumerate(fams4_1):
-            if pp.get('skip_n4'): continue
+            if pp.get('skip_n4') or oracle_kind(proc) == 'complete': continue      # 3^4 candidates x 65 536 functions: left out (stated in the bounds)
             jobs.append(Job('n4-1sym-%d-%s' % (i, proc), mod, 'sem_job', dict({'n': 4, 'fam': f, 'proc': proc}, **pp), stop_after_violations=SAV))
     jobs.append(Job('canary-%s' % canary_proc, mod, 'sem_job', {'n': 2, 'fam': ['sym', 'sym'], 'proc': canary_proc, 'canary': True},
                     stop_after_violations=1, canary=True))
